@@ -17,6 +17,7 @@ import time
 from typing import Any, Dict, List, Tuple
 
 from bounded import c01_cases as cc
+from vlib.report import msg_slug
 
 MODULE = "checks.bounded_C02"
 TERMINAL = cc.TERMINAL
@@ -41,7 +42,7 @@ def history_failures(rec: Dict[str, Any]) -> List[Tuple[str, str]]:
             if call["type"] in TERMINAL:
                 first_terminal = call["type"]
             else:
-                out.append((f"solve:raises:{call['type']}:{_func(call['where'])}",
+                out.append((f"solve:raises:{call['type']}:{_func(call['where'])}:{msg_slug(call['msg'])}",
                             f"solve() call #{i + 1} raised {call['type']}({call['msg'][:160]!r}) at {call['where']} "
                             f"(trace {' < '.join(reversed(call['trace'][-4:]))})"))
         elif call["kind"] == "non-tree":
@@ -66,7 +67,7 @@ def _sanity(rep) -> None:
     bad2 = dict(calls=[dict(kind="exc", type="TimeoutError", msg="", where="solver.py:647:solve", trace=[])],
                 post=[dict(kind="exc", type="TimeoutError", msg="", where="x", trace=[]), dict(kind="tree", str="a")])
     ok = (history_failures(good) == []
-          and [s for s, _ in history_failures(bad1)] == ["solve:raises:TypeError:z3_helpers.py:f"]
+          and [s for s, _ in history_failures(bad1)] == ["solve:raises:TypeError:z3_helpers.py:f:m"]
           and [s for s, _ in history_failures(bad2)] == ["solve:not-sticky:TimeoutError-then-a-tree"])
     rep.section("sanity", history_classifier_cases=3, passed=bool(ok))
     if not ok:
@@ -147,7 +148,7 @@ def run(rep, tier: str, seed: int) -> None:
         fam = family(case["cls"])
         for core, text in history_failures(rec):
             rep.violation(
-                f"{core}:{fam}",
+                core if core.startswith("solve:raises:") else f"{core}:{fam}",
                 f"grammar {case['grammar']} constraint {case['text']!r} (class {case['cls']}) settings "
                 f"{cc.settings_key(case['settings'])} start_symbol {case['start_symbol']}: {text}; expected a tree, "
                 "StopIteration or TimeoutError",
